@@ -10,7 +10,7 @@ SPEC = {
     "anchors": ["PyMatterSim.utils.pbc:remove_pbc"],
     "must_reach": ["PyMatterSim.utils.pbc:remove_pbc"],
     "floors": {"lattice": 1000, "halfcell": 1000, "nonperiodic": 300, "shift_invariance": 300,
-               "idempotence": 1000, "shortest_orthogonal": 300, "history": 500, "arrays_over_1000_rows": 5},
+               "idempotence": 1000, "shortest_orthogonal": 300, "history": 500, "arrays_over_1000_rows": 5, "integer_dtype_cells": 100},
     "rule": ("random displacement arrays x cells {orthogonal, lower-triangular inside/outside LAMMPS tilt limits, "
              "general cond<=1e3} x d in {2,3} x all 2^d masks x magnitudes up to +-50 cells x adversarial values; "
              "a case is non-trivial when at least one periodic fractional coordinate had to be reduced (|f|>1/2); "
@@ -38,7 +38,15 @@ def gen_cell(rng, d):
             if np.linalg.cond(H) < 1e3:
                 break
     else:
-        H = np.diag(L) * 10.0 ** rng.choice([-6, 6])
+        # the same physics in another unit of length (SI metres: 1e-10..1e-9; Angstrom cells in fm: 1e5): orthogonal or tilted -- an
+        # absolute tolerance anywhere in the routine makes the answer depend on the unit
+        H = np.diag(L)
+        if rng.random() < 0.6:
+            H[1, 0] = rng.uniform(-0.5, 0.5) * L[0]
+            if d == 3:
+                H[2, 0] = rng.uniform(-0.5, 0.5) * L[0]
+                H[2, 1] = rng.uniform(-0.5, 0.5) * L[1]
+        H = H * 10.0 ** float(rng.choice([-10, -9, -6, 6]))
     return str(kind), H
 
 
@@ -115,7 +123,7 @@ def run(ctx):
         arg = R[0].copy() if as_vector else R.copy()
         # the same values in the representations real callers hand over: read-only (snapshot arrays from pandas / memmap),
         # Fortran order, strided column views, integer-valued displacements stored as integers, masks as list / tuple / bool
-        rep = str(rng.choice(["plain", "plain", "plain", "readonly", "fortran", "strided", "intvalues", "listmask", "boolmask"]))
+        rep = str(rng.choice(["plain", "plain", "plain", "readonly", "fortran", "strided", "intvalues", "listmask", "boolmask", "intcell"]))
         Harg, parg = H.copy(), ppp.copy()
         if rep == "readonly":
             for a_ in (arg, Harg, parg):
@@ -129,6 +137,11 @@ def run(ctx):
         elif rep == "intvalues" and kind == "ortho":
             R = np.rint(R)
             arg = (R[0] if as_vector else R).astype(np.int64)
+        elif rep == "intcell" and kind in ("ortho", "lammps", "bigtilt"):
+            # a cell whose entries are whole numbers, handed over as an integer array (np.diag([10, 10, 10]), np.array([[12, 0], [5, 9]]))
+            H = np.rint(H * (1 if np.abs(np.diag(H)).min() >= 2 else 4))
+            Harg = H.astype(np.int64 if rng.random() < 0.5 else np.int32)
+            ctx.count("integer_dtype_cells")
         elif rep == "listmask":
             parg = [int(v) for v in ppp] if rng.random() < 0.5 else tuple(int(v) for v in ppp)
         elif rep == "boolmask":
@@ -193,7 +206,7 @@ def run(ctx):
                           "remove_pbc/idempotence", "applying twice differs from applying once", info)
             ctx.skip("idempotence", int((~rows).sum()))
         # clause 5: shortest image for orthogonal cells (per-axis brute force)
-        if np.allclose(H, np.diag(np.diag(H))) and kind != "general":
+        if np.array_equal(H, np.diag(np.diag(H))) and kind != "general":   # exactly diagonal (no absolute tolerance: cells come in any unit)
             L = np.diag(H)
             best = np.abs(R)
             for k in range(-60, 61):
